@@ -8,5 +8,6 @@ mkdir -p .cache
 (cd harness && cargo build --release --offline --target-dir /verif/.cache/target 2>&1 | tail -3)
 # variant build used by the C06 stream (rayon code paths); prebuilt so that the quick check stays quick
 (cd harness && cargo build --release --offline --features concurrent --target-dir /verif/.cache/target-concurrent 2>&1 | tail -1)
+(cd harness && cargo build --offline --profile relcheck --target-dir /verif/.cache/target-relcheck 2>&1 | tail -1)
 (cd lean && lake build 2>&1 | tail -3)
 echo setup-done
